@@ -620,6 +620,90 @@ def run_shard(shard, rep):
     finally:
         loop.close()
 
+# ---------------------------------------------------------------------------
+# part I: several INSTANCES of one class whose responder sets differ (responders bound on the instance)
+# ---------------------------------------------------------------------------
+INST_SETS = ((), ('GET',), ('GET', 'POST'), ('GET', 'POST', 'DELETE'), ('DELETE',))
+INST_METHODS = ('GET', 'POST', 'DELETE', 'PUT', 'OPTIONS')
+
+
+def run_instances(rep, only=None):
+    """Every ordered triple of responder sets, given to three instances of ONE class and registered in that order on one
+    app (plain and suffixed), every method on every route; the oracle is the statement itself: the responder when
+    the instance has one, else 405 / OPTIONS 200 with Allow = exactly that instance's methods + OPTIONS."""
+    import types
+    loop = vloop.VLoop()
+    try:
+        for stack in ('wsgi', 'asgi'):
+            is_async = stack == 'asgi'
+            for sfx in (None, 'v'):
+                sets = [x for x in INST_SETS if x or sfx is None]
+                for combo in itertools.product(sets, repeat=3):
+                    case = {'part': 'I', 'stack': stack, 'suffix': sfx, 'sets': [list(x) for x in combo]}
+                    if only is not None and only != case:
+                        continue
+                    log = []
+                    refused = False
+                    cls = type('SharedRes', (object,), {})
+                    app = (falcon.asgi.App if is_async else falcon.App)()
+                    for j, ms in enumerate(combo):
+                        o = cls()
+                        o.ident = j
+                        for m in ms:
+                            n = 'on_' + m.lower() + ('_' + sfx if sfx else '')
+                            setattr(o, n, types.MethodType(_responder(n, is_async, log), o))
+                        try:
+                            if sfx:
+                                app.add_route('/i%d' % j, o, suffix=sfx)
+                            else:
+                                app.add_route('/i%d' % j, o)
+                        except Exception as e:  # noqa
+                            refused = True
+                            rep.violation(
+                                {'kind': 'registration-refused', 'stack': stack, 'expected': 'ok', 'got': 'rejected',
+                                 'part': 'instances'}, dict(case, method='-', path='/i%d' % j),
+                                'part I stack=%s suffix=%r: instance %d (responders %r) of sets %r: add_route raised %r'
+                                % (stack, sfx, j, ms, combo, e))
+                            break
+                    rep.state()
+                    if refused:
+                        continue
+                    if len(set(combo)) > 1:
+                        rep.nt(digest(('I', stack, sfx, combo)))
+                    for j, ms in enumerate(combo):
+                        for method in INST_METHODS:
+                            del log[:]
+                            if is_async:
+                                res = adrv.call(app, method=method, raw_path='/i%d' % j, loop=loop)
+                            else:
+                                res = wdrv.call(app, method=method, raw_path='/i%d' % j)
+                            rep.trans()
+                            obs = observe(res, list(log))
+                            allow = sorted(set(ms) | {'OPTIONS'})
+                            if method in ms:
+                                n = 'on_' + method.lower() + ('_' + sfx if sfx else '')
+                                exp = {'cls': 'route-responder', 'log': [('res', j, n, ())], 'status': 200,
+                                       'allow': None, 'body': None}
+                            elif method == 'OPTIONS':
+                                # as in the list model: the automatic OPTIONS responder lists the implemented methods
+                                # (OPTIONS itself is intentionally left out there); the 405 lists them plus OPTIONS
+                                exp = {'cls': 'route-options', 'log': [], 'status': 200, 'allow': sorted(ms),
+                                       'body': None}
+                            else:
+                                exp = {'cls': 'route-405', 'log': [], 'status': 405, 'allow': allow, 'body': None}
+                            rep.outcome((exp['cls'], got_class(obs)))
+                            bad = compare(exp, obs, method)
+                            if bad:
+                                rep.violation(
+                                    {'kind': bad[0], 'stack': stack, 'expected': exp['cls'], 'got': got_class(obs),
+                                     'part': 'instances'},
+                                    dict(case, method=method, path='/i%d' % j),
+                                    'part I stack=%s suffix=%r: three instances of one class with responder sets %r '
+                                    'registered in that order; %s /i%d: expected %s; %s'
+                                    % (stack, sfx, combo, method, j, exp['cls'], bad[1]))
+    finally:
+        loop.close()
+
 
 def selftest_model(nm):
     """The hand-written sink predicates must be what the documented regex semantics give."""
@@ -645,6 +729,8 @@ def check(rep):
         'histories': history_count(rep.tier),
         'sink_before_static_route': [True, False], 'stacks': ['wsgi', 'asgi'],
         'modes': ['final: requests after the last registration', 'incr: GET+OPTIONS on every path after every registration'],
+        'part_I': 'three instances of one class, every ordered triple of responder sets %r, plain and suffixed, '
+                  'methods %r on every route, both stacks' % (INST_SETS, INST_METHODS),
         'request_methods': list(REQ_METHODS), 'paths': paths(nm),
         'route_templates': sorted(templates(nm).values()),
         'sink_prefixes': sorted(str(getattr(v, 'pattern', v)) for v in sink_prefixes(nm).values()),
@@ -674,6 +760,7 @@ def check(rep):
             # seeds may reorder shards; results are merged per shard so the explored space is the same
             shards = shards[::2] + shards[1::2]
         par.run_shards(run_shard, shards, rep)
+        run_instances(rep)
     finally:
         shutil.rmtree(root, ignore_errors=True)
 
@@ -681,6 +768,10 @@ def check(rep):
 def replay(rec):
     from mc.core.report import Report
     rep = Report('C02')
+    if rec.get('part') == 'I':
+        run_instances(rep, only={k: rec[k] for k in ('part', 'stack', 'suffix', 'sets')})
+        v = list(rep.viol.values())
+        return {'violation': bool(v), 'details': [x['explain'] for x in v]}
     nm = rec['seed_names']
     root = tempfile.mkdtemp(prefix='mc_c02_')
     try:
